@@ -422,8 +422,100 @@ def run_fieldwise(case, ctx):
     ctx.nontrivial()
 
 
+# ---------------------------------------------------------------------------------------------------------
+# post_merge: a crowded system in which a merger happens early, saved afterwards, then a LONG continuation with
+# close encounters (hybrid integrators decide per step what to do from state that must all be persisted).
+@st.composite
+def post_merge_case(draw):
+    n_extra = draw(st.integers(2, 3))
+    planets = []
+    for k in range(n_extra):
+        planets.append({"da": draw(S.floats(0.02, 0.09)) * (1 if k % 2 == 0 else -1) * (1 + k // 2),
+                        "e": draw(S.floats(0.0, 0.1)), "f": draw(S.floats(0.0, 6.28)),
+                        "m": draw(st.sampled_from([1e-4, 3e-5, 3e-4]))})
+    integ = draw(st.sampled_from(["trace", "trace", "trace", "mercurius"]))
+    return {"planets": planets, "f0": draw(S.floats(0.0, 6.28)), "integrator": integ,
+            "peri_mode": draw(st.sampled_from(["PARTIAL_BS", "FULL_BS", "FULL_IAS15"])),
+            "dt": draw(st.sampled_from([0.05, 0.1, 0.2])), "k": draw(st.integers(2, 5)),
+            "method": draw(st.sampled_from(["file", "pickle", "copy", "bytes"])),
+            "n_cont": draw(st.sampled_from([200, 400]))}
+
+
+def run_post_merge(case, ctx):
+    import warnings
+    import rebound
+    from .. import rb
+    warnings.simplefilter("ignore")
+    sim = rebound.Simulation()
+    sim.add(m=1.0)
+    sim.add(m=1e-4, a=1.0, e=0.05, f=case["f0"], r=1e-4)
+    p = sim.particles[1]
+    sim.add(m=5e-5, x=p.x + 1e-4, y=p.y, z=p.z, vx=p.vx, vy=p.vy, vz=p.vz, r=1e-4)     # overlapping twin: merges at once
+    for q in case["planets"]:
+        sim.add(m=q["m"], a=1.0 + q["da"], e=q["e"], f=q["f"], r=1e-6)
+    N0 = sim.N
+    sim.integrator = case["integrator"]
+    if case["integrator"] == "trace":
+        set_peri_mode(sim, case["peri_mode"])
+    sim.dt = case["dt"]
+    sim.collision = "direct"
+    sim.collision_resolve = "merge"
+    budget = [0]
+
+    def limiter(simp):
+        budget[0] += 1
+    try:
+        sim.steps(case["k"])
+    except (RuntimeError, rebound.Escape, rebound.Encounter, rebound.Collision, rebound.NoParticles):
+        ctx.skip("setup raised")
+        return
+    if sim.N != N0 - 1:
+        ctx.skip("no single early merger")
+        return
+    m0 = rb.smap(sim)
+    res = restore(sim, case["method"], ctx)
+    res.collision_resolve = "merge"
+    if rb.smap(res) != m0:
+        from ..oracles import sa_format
+        raise Violation("restored (%s) simulation's persisted content differs from the original after a merger" % case["method"],
+                        diff=sa_format.map_diff(m0, rb.smap(res), rb.field_names())[:8])
+    enc = 0
+    for j in range(case["n_cont"]):
+        try:
+            sim.steps(1)
+            e0 = None
+        except (RuntimeError, rebound.Escape, rebound.Encounter, rebound.Collision, rebound.NoParticles) as e:
+            e0 = type(e).__name__
+        try:
+            res.steps(1)
+            e1 = None
+        except (RuntimeError, rebound.Escape, rebound.Encounter, rebound.Collision, rebound.NoParticles) as e:
+            e1 = type(e).__name__
+        if e0 != e1:
+            raise Violation("continuation step %d after a merger: original raised %r, restored (%s) raised %r"
+                            % (j + 1, e0, case["method"], e1))
+        if e0:
+            break
+        if case["integrator"] == "trace":
+            enc += 1 if sim.ri_trace._encounter_N > 1 else 0
+        else:
+            enc += 1 if sim.ri_mercurius._encounter_N > 1 else 0
+        if sim.N != res.N or core_state(sim) != core_state(res):
+            raise Violation("%s: %d steps after a restore (%s) that followed a merger, original and restored differ "
+                            "(N %d / %d, %d encounter steps so far)" % (case["integrator"], j + 1, case["method"], sim.N, res.N, enc),
+                            method=case["method"], step=j + 1)
+    ctx.cls("post_merge/" + case["integrator"])
+    ctx.cls("post_merge/" + case["method"])
+    if enc:
+        ctx.cls("post_merge/encounters")
+        ctx.nontrivial()
+    ctx.stat_max("post_merge_encounter_steps", enc)
+
+
 def subs(tier):
     return [
+        Sub("post_merge", run_post_merge, strategy=post_merge_case(), quick=320, thorough=16000,
+            shards_quick=8, shards_thorough=16),
         Sub("roundtrip", run_roundtrip, strategy=roundtrip_case(), quick=2400, thorough=400000,
             shards_quick=12, shards_thorough=16),
         Sub("fieldwise", run_fieldwise, cases=fieldwise_cases, exhaustive=True, shards_quick=4, shards_thorough=4),
